@@ -87,6 +87,10 @@ def gen_dataset(rng, name, kind, n_dates=None, weird=False, dyadic=True, allow_r
 def gen_server_scenario(rng, kind, mode="direct", weird=False, multi=True, n_ops=None, malformed=False,
                         run_to_end=False):
     names = ["A", "B", "C"][:rng.choice([1, 2, 3]) if multi else 1]
+    if len(names) >= 2 and rng.random() < 0.35:
+        # dataset names are arbitrary strings: a pair symbol, a space, a literal percent or plus sign (over HTTP the name
+        # travels as one percent-encoded path segment)
+        names = names[:-1] + [rng.choice(["BTC/USDT", "my data", "50%", "a+b", "x%2Fy"])]
     dss = [gen_dataset(rng, nm, kind, weird=weird and rng.random() < 0.5) for nm in names]
     start = rng.choice(["create", "single:A"])
     ops = []
